@@ -67,6 +67,7 @@ def run(ctx):
         ctx.guard("trail" + tag, trail, ctx, crate, crs, tag)
         ctx.guard("watch-list" + tag, wl.run, ctx, crate, crs, tag)
         ctx.guard("restart" + tag, restart_level, ctx, crate, crs, tag)
+        ctx.guard("assertions" + tag, c01.assertions, ctx, crate, crs, tag)
 
 
 def conflict_signal(ctx, crate, crs, tag):
